@@ -84,9 +84,9 @@ class ShmWire(Harness):
     assumptions = [
         "base-256 digits exist and are unique for 0 <= n < 256^k (discharged per width as a bit-vector lemma)",
         "is_ascii is an uninterpreted predicate: round-trip holds for every interpretation, acceptance is trivial for ASCII strings",
-        f"admitted domain: sizes 0..2^63, ASCII strings of length <= {STR_MAX}, enum members",
+        f"admitted domain: sizes 0..2^63, ASCII strings of length <= {STR_MAX}, enum members, and the encoded message fits the datagram the peers read (the size is parsed from the recv/recvfrom calls of shm/server.py and shm/client.py)",
     ]
-    outside = ["pickle / cloudpickle / orjson / pydantic-core internals (C code)", "the 1024-byte datagram limit itself"]
+    outside = ["pickle / cloudpickle / orjson / pydantic-core internals (C code)", "fragmentation / loss of UDP datagrams below the size the peers read"]
 
     def functions(self):
         import cascade.shm.api as api
